@@ -118,6 +118,24 @@ class BundleInstance:
     def __repr__(self):
         return f"{self.__class__.__name__}(name={self.name} of={self.of})"
 
+    def __copy__(self) -> "BundleInstance":
+        """BundleInstance copying implementation
+        Keeps "public" fields such as name, type, and role,
+        while dropping "per-module" fields such as the references handed out and the ports connected so far.
+        (Sharing those between copies would make connections to one copy land on another.)"""
+        cp = BundleInstance(
+            name=self.name,
+            of=self.of,
+            port=self.port,
+            flipped=self.flipped,
+            role=self.role,
+            src=self.src,
+            dest=self.dest,
+            desc=self.desc,
+        )
+        cp.props = copy(self.props)
+        return cp
+
     def __rmul__(self, num: int) -> List["Self"]:
         """# Right multiplication. Creates `num` copies of ourselves."""
         if not isinstance(num, int):
